@@ -1,6 +1,5 @@
 use crate::errors::*;
 use indexmap::IndexSet;
-use snafu::OptionExt;
 use std::collections::hash_map::{Drain, Entry, HashMap};
 
 pub(crate) struct ChannelSlots<T> {
@@ -96,15 +95,16 @@ impl<T> ChannelSlots<T> {
 
         // At the end of our rope for simple channel allocation; fall back to finding
         // one that has been previously freed.
-        let channel_id = self.freed_channel_ids.pop().context(ExhaustedChannelIdsSnafu)?;
-        match self.slots.entry(channel_id) {
-            Entry::Occupied(_) => unreachable!("free channel id cannot be occupied"),
-            Entry::Vacant(entry) => {
+        // A freed id may have been taken again since (by an explicit request or by the
+        // counter above); skip those.
+        while let Some(channel_id) = self.freed_channel_ids.pop() {
+            if let Entry::Vacant(entry) = self.slots.entry(channel_id) {
                 let (t, u) = make_entry(channel_id)?;
                 entry.insert(t);
-                Ok(u)
+                return Ok(u);
             }
         }
+        ExhaustedChannelIdsSnafu.fail()
     }
 }
 
